@@ -359,6 +359,90 @@ def check_case(case, sess: Session):
             sess.violation("reflection-changed-canonical-records", tcase, {"streams": diff})
 
 
+PLANNER_OUTCOMES = ("valid-true", "valid-false", "valid-nokey", "no-fixture", "invalid-json", "trailing-prose", "not-an-object", "empty")
+
+
+def planner_history(rng, sess: Session):
+    """The plan's request as the LLM planner policy (select_policy / run_policy) hands it over - the flag it leaves on an
+    object state - over histories of planner outcomes (valid plans asking / declining, failures falling back): the gate
+    follows the plan of THIS turn.  Real planner, real fixture provider, real gate function and writer."""
+    import tempfile
+    import shutil
+    from types import SimpleNamespace as SNS
+    from clematis.adapters.llm import _prompt_hash
+    from clematis.engine.stages.t3 import policy as P
+    from clematis.engine.orchestrator import core
+    from clematis.engine.orchestrator.reflection import write_reflection_entries
+
+    tmp = tempfile.mkdtemp(prefix="c19p_", dir=os.environ.get("VERIF_SCRATCH") or None)
+    try:
+        fx_path = os.path.join(tmp, "planner_fixtures.jsonl")
+        allow = rng.random() < 0.8
+        cfg = {"t3": {"backend": "llm", "allow_reflection": allow,
+                      "reflection": {"backend": "rulebased", "summary_tokens": rng.choice([1, 8, 64]), "topk_snippets": 0, "embed": False},
+                      "llm": {"provider": "fixture", "fixtures": {"enabled": True, "path": fx_path}}},
+               "scheduler": {"budgets": {"time_ms_reflection": 10 ** 6, "ops_reflection": rng.choice([1, 2, 5])}}}
+        outcomes = [rng.choice(PLANNER_OUTCOMES) for _ in range(rng.randint(2, 7))]
+        if rng.random() < 0.5:
+            k = rng.randrange(len(outcomes) - 1)
+            outcomes[k] = "valid-true"  # a request, then whatever comes next
+        dry = [rng.random() < 0.15 for _ in outcomes]
+
+        def mk_ctx(turn, d=False):
+            return SNS(turn_id=turn, agent_id="AgentA", now_ms=1000 * turn, cfg=cfg, config=cfg, _dry_run_until_t4=d)
+
+        with open(fx_path, "w", encoding="utf-8") as f:
+            for turn, oc in enumerate(outcomes, 1):
+                body = {"plan": ["think"], "rationale": "because"}
+                if oc == "valid-true":
+                    comp = json.dumps({**body, "reflection": True})
+                elif oc == "valid-false":
+                    comp = json.dumps({**body, "reflection": False})
+                elif oc == "valid-nokey":
+                    comp = json.dumps(body)
+                elif oc == "invalid-json":
+                    comp = '{"plan": ["think"], "reflection": true'
+                elif oc == "trailing-prose":
+                    comp = json.dumps({**body, "reflection": True}) + " and that is my plan"
+                elif oc == "not-an-object":
+                    comp = json.dumps([{**body, "reflection": True}])
+                elif oc == "empty":
+                    comp = ""
+                else:
+                    continue
+                f.write(json.dumps({"prompt_hash": _prompt_hash(P.make_planner_prompt(mk_ctx(turn))), "completion": comp}) + "\n")
+        index = RecIndex()
+        state = SNS(memory_index=index, logs=[])
+        case = {"planner_outcomes": outcomes, "dry": dry, "allow": allow}
+        for turn, oc in enumerate(outcomes, 1):
+            ctx = mk_ctx(turn, dry[turn - 1])
+            # (t3_pipeline itself hands run_policy a reduced config snapshot without t3.backend and so never selects the LLM
+            # planner: the stash is produced by run_policy under the root configuration)
+            out = P.run_policy(P.select_policy(cfg, ctx), {}, cfg, ctx, state=state)
+            sess.evaluations += 1
+            sess.count("planner_pipeline_turns")
+            sess.count("planner_outcome:" + oc)
+            plan = SNS(ops=[], reflection=False)  # the request, if any, travels on the state
+            before = len(index.adds)
+            res = core._run_reflection_if_enabled(ctx, state, plan, f"utterance of turn {turn}", SNS(retrieved=[]))
+            if res is not None and getattr(res, "memory_entries", None):
+                write_reflection_entries(ctx, state, cfg, res)
+            wrote = len(index.adds) - before
+            want = allow and oc == "valid-true" and not dry[turn - 1]
+            if (res is not None) != want or (wrote > 0 and not want):
+                sess.violation("gate:planner-pipeline-request-not-the-plan-of-this-turn", case,
+                               {"turn": turn, "outcome": oc, "previous": outcomes[:turn - 1], "reflected": res is not None, "entries_written": wrote,
+                                "expected_to_reflect": want, "flag_on_state": getattr(state, "_planner_reflection_flag", None)})
+                return
+            if want:
+                sess.count("planner_requests_honoured")
+                sess.nontrivial.add(chash(("planner", tuple(outcomes[:turn]))))
+            elif turn > 1 and outcomes[turn - 2] == "valid-true":
+                sess.count("planner_turns_after_a_request_that_must_not_reflect")
+    finally:
+        shutil.rmtree(tmp, ignore_errors=True)
+
+
 def _chunk(args):
     tier, seed, i, n = args
     from vlib import bootstrap
@@ -369,6 +453,12 @@ def _chunk(args):
     for _ in range(n):
         try:
             check_case(gen_case(rng), sess)
+        except Exception as ex:
+            import traceback
+            sess.inconclusive_because(f"harness error {type(ex).__name__}: {ex} @ {traceback.format_exc()[-600:]}")
+    for _ in range(max(4, n // 6)):
+        try:
+            planner_history(rng, sess)
         except Exception as ex:
             import traceback
             sess.inconclusive_because(f"harness error {type(ex).__name__}: {ex} @ {traceback.format_exc()[-600:]}")
@@ -391,6 +481,9 @@ def main(tier: str, seed: int):
     sess.require("entries_written", 20)
     sess.require("reflection_off_twins_compared", 60)
     sess.require("clock_replays_compared", 15)
+    sess.require("planner_pipeline_turns", 150)
+    sess.require("planner_requests_honoured", 20)
+    sess.require("planner_turns_after_a_request_that_must_not_reflect", 15)
     for f in ("reflect-raises", "index-add-raises", "timeout", "fixture-missing", "fixture-miss"):
         sess.require("fault:" + f, 2)
     sess.finish()
@@ -399,5 +492,11 @@ def main(tier: str, seed: int):
 def replay(body, tier, seed):
     sess = Session(PID, tier, seed, rule=RULE, level="fault_enumeration")
     sess.replay_mode = True
-    check_case(unjson(body["case"]), sess)
+    case = unjson(body["case"])
+    if "planner_outcomes" in case:
+        rng = random.Random(0)
+        for _ in range(300):
+            planner_history(rng, sess)
+        return sess.finish(exit_process=False)
+    check_case(case, sess)
     return sess.finish(exit_process=False)
